@@ -65,6 +65,7 @@ type GenAccount struct {
 	Coins    map[string]string `json:"coins,omitempty"`
 	Sequence uint64            `json:"sequence,omitempty"`
 	Vesting  *VestingSpec      `json:"vesting,omitempty"`
+	Unfunded bool              `json:"unfunded,omitempty"` // vesting account holding no coins at all (e.g. everything delegated/spent)
 }
 
 // VestingSpec describes a vesting account. Kind: continuous | delayed | periodic | permanent.
@@ -230,7 +231,11 @@ func (w World) BuildGenesis(cdc codec.Codec, def map[string]json.RawMessage) map
 				panic("bad vesting kind " + a.Vesting.Kind)
 			}
 			// a vesting account must hold at least its original vesting
-			coins = coins.Max(orig)
+			if a.Unfunded {
+				coins = sdk.NewCoins()
+			} else {
+				coins = coins.Max(orig)
+			}
 		} else {
 			genAccs = append(genAccs, base)
 		}
